@@ -13,6 +13,7 @@ mod c14;
 mod c15;
 mod c16;
 mod iogen;
+mod iowide;
 mod distmodel;
 mod c19;
 mod common;
